@@ -19,10 +19,11 @@ def programs(tier, seed):
 
 def run(tier='quick', seed=0, only=None, verbose=False):
     rep = Report('C04', tier, seed, 'translation_validation', functions_encoded=FUNCS + [
+        'pyrates.ir.circuit.NetworkGraph._vectorize_edges / _add_edge_buffer (concrete; delayed edge groups)',
         'pyrates.ir.node.cache_func / VectorizedNodeIR.extend (concrete)',
         'pyrates.ir.circuit._generate_edge_equation matrix vs indexed branch (concrete)'],
         bounds=dict(node_types='<=2', nodes_per_type='<=3 (quick) / <=5 (thorough)', edges='<= all pairs',
-                    patterns='dense, sparse, diagonal, ring, fan-in, random, cross-type', delays='see C09/C11'),
+                    patterns='dense, sparse, diagonal, ring, fan-in, random, cross-type', delays='five fixed programs with discrete delays (ring-buffer plugin of C09); more in C09/C11'),
         stubs=['numpy library model'],
         assumptions=['reals for floats', 'denominators != 0', 'at most one edge per (source node, target variable): '
                      'the dropped-edge defect is recorded under C01'])
@@ -43,6 +44,14 @@ def run(tier='quick', seed=0, only=None, verbose=False):
             jobs.append(dict(key=f"{key}|vec={vec}", spec=spec, vectorize=vec, backend='default',
                              cvc5=(tier == 'thorough')))
     tvjobs.run_tv_jobs(rep, jobs, verbose=verbose)
+    # delayed edges: the grouping of edges per (source group, target group, delay kind) is part of vectorization
+    from . import c09
+    dj = [dict(key=f"{k}|vec={v}", spec=s, vectorize=v) for k, s in families.fam_discrete_delays_fixed()
+          if k.split(':')[1] in ('three-groups', 'mixed-fanout', 'two-delays-one-source', 'same-delay-permuted-sources',
+                                 'same-delay-repeated-source') for v in (True, False)]
+    if only:
+        dj = [j for j in dj if only in j['key']]
+    tvjobs.run_tv_jobs(rep, dj, verbose=verbose, fn=c09.job_fn)
     return rep.finish(rule='programs = generated circuits (1-2 node types x 1..N nodes, weight patterns) compiled with '
                            'vectorize=True and =False; one SMT obligation per frontend state variable and setting: '
                            'emitted derivative == reference semantics for all states/parameters; both settings equal '
